@@ -25,7 +25,8 @@ import tempfile
 from vlib import trace
 
 WORKERS = int(os.environ.get("VERIF_C10_WORKERS", "4"))     # TLC workers = driver processes = judge chunks
-NAMES = ["alpha", "beta", "alpha beta", "beta alpha", "gamma"]
+# "alphabeta": continues with a letter where a pattern "alpha " / " beta" has a blank; "gamma  beta": inner double blank
+NAMES = ["alpha", "beta", "alpha beta", "alphabeta", "beta alpha", "gamma  beta", "gamma"]
 CLAUSES = ("C10.line", "C10.union", "C10.all", "C10.exempt", "C10.others_skipped", "C10.files", "C10.listfile", "C10.name")
 
 
